@@ -191,10 +191,22 @@ func runC28(c *Ctx) {
 				return ok && loadsField(lk.X, fRI)
 			}},
 		}
+		// the Indexes delete may be skipped only through the "this tunnel no longer owns the index" side of an ownership test
+		// (Indexes[id] == hostinfo), the same idiom the RemoteIndexes delete uses
+		notOwner, _ := passEdges(fn, gCmp("Indexes[id] != hostinfo", func(v ssa.Value) bool {
+			return derivesFrom(v, sliceLocal, func(x ssa.Value) bool { lk, ok := x.(*ssa.Lookup); return ok && loadsField(lk.X, fIdx) })
+		}, func(v ssa.Value) bool { return v == hi }, mustDiffer))
 		for _, m := range must {
 			bad := false
 			for _, r := range rets {
-				if av, path := c.avoidsCut(fn, nil, r, m.cut); av {
+				var av bool
+				var path []string
+				if m.name == "Indexes-delete" && len(notOwner) > 0 {
+					av, path = c.avoidsCutEdges(fn, fn.Blocks[0].Instrs[0], r, m.cut, notOwner)
+				} else {
+					av, path = c.avoidsCut(fn, nil, r, m.cut)
+				}
+				if av {
 					bad = true
 					c.Bad("C28.delete", "must-pass:"+m.name, c.instrPos(r), "a path through unlockedDeleteHostInfo returns without "+m.name+": a removed tunnel stays reachable", path...)
 					break
